@@ -40,6 +40,20 @@ pub fn tick(cell: &'static std::thread::LocalKey<Cell<Option<u64>>>, what: &str)
     }
 }
 
+/// run harness-side instrumentation (e.g. the peek issued before a pop) without consuming crash-point fuel
+pub fn unfueled<T>(f: impl FnOnce() -> T) -> T {
+    let saved = (FUEL_CMP.with(|c| c.get()), FUEL_HASH.with(|c| c.get()), FUEL_EQ.with(|c| c.get()),
+                 FUEL_CLONE.with(|c| c.get()), FUEL_CB.with(|c| c.get()));
+    clear_fuel();
+    let r = f();
+    FUEL_CMP.with(|c| c.set(saved.0));
+    FUEL_HASH.with(|c| c.set(saved.1));
+    FUEL_EQ.with(|c| c.set(saved.2));
+    FUEL_CLONE.with(|c| c.set(saved.3));
+    FUEL_CB.with(|c| c.set(saved.4));
+    r
+}
+
 pub fn clear_fuel() {
     FUEL_CMP.with(|c| c.set(None));
     FUEL_HASH.with(|c| c.set(None));
